@@ -1,4 +1,5 @@
 """C16 — colour-space mappers are monotone, fix the endpoints and keep alpha (clauses)."""
+import re
 from ..engines import mono
 from ..engines.mono import C, I, D, U, INF
 from ..engines.tables import Switch
@@ -484,6 +485,97 @@ def table_ctor(rep, prog, rule):
     rep.floor(rule, "tables in MappingTablesGroup aggregates", n, 8)
 
 
+def entry_formula(rep, prog, rule):
+    rep.rule(rule, "MappingTable::new computes EVERY entry of every table from the transfer function "
+             "itself: the value handed to from_f32 is round(map_func(i / (SIZE - 1)) * max) with one "
+             "call of map_func per entry and nothing but the scaling and the rounding between that call "
+             "and the store. An entry that is a combination of several calls (linear interpolation "
+             "between knots for the 65536-entry tables) is not 'the documented transfer function applied "
+             "to v/max and rounded': entries between the knots are off, 65535 no longer maps to 65535")
+    fs = [f for f in prog.fns.values() if re.search(r"(^|::)MappingTable::<.*>::new$", f.name)]
+    if len(fs) != 1:
+        rep.unk(rule, "MappingTable::new|anchor", "", "%d functions named MappingTable::new" % len(fs))
+        return
+    f = fs[0]
+    n = 0
+    owners = [f]
+    stack = list(f.closures())
+    while stack:
+        g = stack.pop()
+        owners.append(g)
+        stack.extend(g.closures())
+    for g in owners:
+        gs = None
+        for c in g.calls():
+            if not (c.name or "").endswith("from_f32"):
+                continue
+            n += 1
+            rep.touch(g)
+            gs = gs or Sym(g)
+            e = gs.operand(c.args[0], (c.bb, "term"))
+            calls, path_ops = [], []
+
+            def walk(x, ops):
+                if not isinstance(x, tuple) or not x:
+                    return
+                if x[0] in ("call", "callat"):
+                    nm = x[1] if x[0] == "call" else x[2]
+                    args = x[2] if x[0] == "call" else x[3]
+                    full = x[-1] if isinstance(x[-1], str) else ""
+                    if nm in ("call", "call_mut", "call_once") and "Fn" in full:
+                        calls.append((x, list(ops)))
+                        return
+                    if nm in ("round", "into", "from", "max_value", "clamp", "min", "max"):
+                        for a in args:
+                            walk(a, ops + [nm])
+                        return
+                    # a crate-local / unknown call between the store and map_func
+                    for a in args:
+                        walk(a, ops + ["call:" + str(nm)])
+                    return
+                if x[0] == "bin":
+                    walk(x[2], ops + [x[1]])
+                    walk(x[3], ops + [x[1]])
+                    return
+                for y in x:
+                    if isinstance(y, tuple):
+                        walk(y, ops)
+            walk(e, [])
+            key = "%s|entry" % g.name
+            if len(calls) == 1 and all(o in ("round", "Mul", "into", "from", "clamp", "min", "max") for o in calls[0][1]):
+                arg = calls[0][0][3][1] if calls[0][0][0] == "callat" else calls[0][0][2][1]
+                sarg = fmt(arg)
+                if "Div" in sarg and "SIZE" in sarg:
+                    rep.ok(rule, key, c.at, "round(map_func(%s) * max)" % sarg[:60])
+                else:
+                    rep.unk(rule, key, c.at, "map_func is applied to %s" % sarg[:80])
+            elif len(calls) >= 2 or (calls and any(o in ("Add", "Sub", "Div") for o in calls[0][1])):
+                rep.bad(rule, key + "|combined", c.at,
+                        "%s stores an entry that combines %d evaluation(s) of the transfer function with "
+                        "%s: the entry is not round(map_func(i / (SIZE - 1)) * max) of its own index" % (
+                            g.name, len(calls), ", ".join(sorted({o for cc in calls for o in cc[1]
+                                                                 if o in ("Add", "Sub", "Div", "Mul")})) or "arithmetic"))
+            elif not calls and _mentions_local_values(e):
+                # values computed before (knots) and combined here
+                if any(k in fmt(e) for k in (" Add ", " Sub ")):
+                    rep.bad(rule, key + "|combined", c.at,
+                            "%s stores %s: an entry computed from previously evaluated values, not from "
+                            "map_func at its own index" % (g.name, fmt(e)[:100]))
+                else:
+                    rep.unk(rule, key, c.at, "entry value %s" % fmt(e)[:100])
+            else:
+                rep.unk(rule, key, c.at, "entry value %s" % fmt(e)[:100])
+    rep.floor(rule, "table entry stores", n, 1)
+
+
+def _mentions_local_values(e):
+    if not isinstance(e, tuple) or not e:
+        return False
+    if e[0] in ("local", "callat", "field", "param"):
+        return True
+    return any(_mentions_local_values(x) for x in e if isinstance(x, tuple))
+
+
 def run(rep, tier):
     cfgs = ["x86"] if tier == "quick" else ["x86", "arm", "wasm"]
     for cfg, prog in programs(cfgs):
@@ -493,3 +585,4 @@ def run(rep, tier):
         rep.call(gaps, rep, prog, "C16.gaps")
         rep.call(reject, rep, prog, "C16.reject")
         rep.call(table_ctor, rep, prog, "C16.table-ctor")
+        rep.call(entry_formula, rep, prog, "C16.entry-formula")
